@@ -207,16 +207,34 @@ def overlap_facts(repo):
                 raise ValueError("block function is not a name")
             d = kwarg(call, "depth")
             se = ShapeExpr(df)
+            # a local name bound once to the depth expression (`halo = (1, 1)`; `depth = {0: 1, 1: 1}`)
+            for _ in range(4):
+                if isinstance(d, ast.Name) and isinstance(se.defs.get(d.id), (ast.Tuple, ast.Dict, ast.Name)):
+                    d = se.defs[d.id]
+            if isinstance(d, ast.Dict) and len(d.keys) == 2 \
+                    and sorted(getattr(k, "value", None) for k in d.keys) == [0, 1]:
+                by_axis = {k.value: v for k, v in zip(d.keys, d.values)}
+                d = ast.Tuple(elts=[by_axis[0], by_axis[1]], ctx=ast.Load())
             if isinstance(d, ast.Tuple) and len(d.elts) == 2:
-                depth = f"fun kr kc => ({se.tr(d.elts[0])}, {se.tr(d.elts[1])})"
-                body = depth.split("=>", 1)[1]
-                depth = "fun " + ("kr" if "kr" in body else "_") + " " + ("kc" if "kc" in body else "_") + " =>" + body
-            elif isinstance(d, ast.Constant) and isinstance(d.value, int):
-                depth = f"fun _ _ => ({d.value}, {d.value})"
+                pair = (se.tr(d.elts[0]), se.tr(d.elts[1]))
+            elif d is not None and not isinstance(d, (ast.Tuple, ast.Dict)):
+                # a scalar depth means the same depth on every axis (dask's documented broadcasting)
+                e = se.tr(d)
+                pair = (e, e)
             else:
                 raise ValueError("depth shape")
+            if pair[0].isdigit() and pair[1].isdigit():
+                depth = f"fun _ _ => ({pair[0]}, {pair[1]})"
+            else:
+                body = f" ({pair[0]}, {pair[1]})"
+                depth = "fun " + ("kr" if "kr" in body else "_") + " " + ("kc" if "kc" in body else "_") + " =>" + body
             b = kwarg(call, "boundary")
-            bnan = isinstance(b, ast.Attribute) and b.attr == "nan"
+            if isinstance(b, ast.Name) and b.id in se.defs:
+                b = se.defs[b.id]
+            bnan = (isinstance(b, ast.Attribute) and b.attr == "nan"
+                    and isinstance(b.value, ast.Name) and b.value.id in ("np", "numpy", "math")) \
+                or (isinstance(b, ast.Call) and call_name(b.func) == "float" and len(b.args) == 1
+                    and isinstance(b.args[0], ast.Constant) and str(b.args[0].value).lower() == "nan")
             eager = eager_calls(df)
             nf = find_func(mod, npf) if npf else None
             ncalls = called_names(nf) if nf is not None else []
